@@ -43,7 +43,32 @@ def cases(ctx):
             out.append({"dt": dt, "level": level, "order": 0, "gcds": rng.below(2), "chunks": [xs], "kinds": ["two-sided-spike"], "drain": 0})
     for _ in range(800 if ctx.quick else 8000):
         out.append(S.enc_case(rng))
+    # a nearly full-range uniform bulk plus hundreds of tight clusters at level 12: one merged range holds most numbers and
+    # must get a short code although it was merged from many buckets (a wrong Huffman weight shows as a size violation here)
+    for _ in range(1 if ctx.quick else 6):
+        out.append(bulk_cluster_case(rng, rng.choice([4, 5, 6])))
     return out
+
+def bulk_cluster_case(rng, b, dt=None, m=None):
+    """4096*b numbers at level 12 (4096 buckets of b): a uniform bulk over the lower 15/16 of the type's range and m
+    clusters of exactly b consecutive values above it, so that every cluster is one bucket and the bulk merges into one
+    wide range"""
+    dt = dt or rng.choice(["u32", "i32", "f32", "u64", "i64", "f64", "micros", "nanos"])
+    P, W, kind, pps = C.DTYPES[dt]
+    m = m or rng.choice([128, 256, 384, 512])
+    lo = 0 if kind == "uint" else -(1 << (W - 1))
+    span = 1 << W
+    top = lo + span - (span >> 4)
+    nb = (4096 - m) * b
+    step = (top - lo) // nb
+    xs = [G.from_signed_val(dt, lo + i * step + rng.below(step)) for i in range(nb)]
+    for c in range(m):
+        base = top + (span >> 12) + c * (span >> 15)
+        xs += [G.from_signed_val(dt, base + j) for j in range(b)]
+    for i in range(len(xs) - 1, 0, -1):
+        j = rng.below(i + 1)
+        xs[i], xs[j] = xs[j], xs[i]
+    return {"dt": dt, "level": 12, "order": 0, "gcds": rng.below(2), "chunks": [xs], "kinds": ["bulk+clusters"], "drain": 0}
 
 def run(ctx):
     ctx.explanation = ('metadata/offset/varint size theorems are unconditional; the body bound is now a theorem for tables without a '
@@ -61,8 +86,19 @@ def run(ctx):
                 "huffCostW (= huffCost, proved). non-trivial = multi-prefix or > 64 numbers")
     if not ctx.model_ok:
         return
-    res = S.run_enc(ctx, cases(ctx))
-    worst = 0.0
+    worstbox = [0.0]
+    judge(ctx, S.run_enc(ctx, cases(ctx)), worstbox)
+    if ctx.disagreements and not ctx.violations:
+        # a tie of the size theorems is broken (huffopt / re-encoding): look for a concrete size violation on the inputs
+        # where a bad code or weight costs most — bigger bulk+cluster chunks over several types
+        C.log("[C14] a tie is broken: searching bulk+cluster inputs for a concrete size violation")
+        extra = [bulk_cluster_case(ctx.rng, b, dt, m) for (b, dt, m) in
+                 ((8, "u32", 256), (16, "u32", 256), (12, "i64", 512), (16, "f32", 384))]
+        judge(ctx, S.run_enc(ctx, extra), worstbox)
+    ctx.extra["worst_body_bits_per_number_minus_W"] = round(worstbox[0], 3)
+
+def judge(ctx, res, worstbox):
+    worst = worstbox[0]
     for r in res:
         c = r["case"]
         line = S.compress_line(c)
@@ -123,4 +159,4 @@ def run(ctx):
         if bad:
             ctx.violation("size bound exceeded: " + "; ".join(bad[:4]), line, "bounds of C14", r["model"][:600],
                           klass="bool-delta-moment-bytes" if only_bool_moments else None)
-    ctx.extra["worst_body_bits_per_number_minus_W"] = round(worst, 3)
+    worstbox[0] = max(worstbox[0], worst)
